@@ -346,6 +346,7 @@ func (l *Lexer) readBlockString(tok *token.Token) {
 	leadingWhitespaceToken := 0
 
 	for {
+		atEnd := l.input.InputPosition >= l.input.Length
 		next := l.readRune()
 		switch next {
 		case runes.SPACE, runes.TAB, runes.CARRIAGERETURN, runes.LINETERMINATOR:
@@ -353,6 +354,17 @@ func (l *Lexer) readBlockString(tok *token.Token) {
 			quoteCount = 0
 			whitespaceCount++
 		case runes.EOF:
+			if !atEnd {
+				// a NUL byte in the input is not the end of the input
+				if !reachedFirstNonWhitespace {
+					reachedFirstNonWhitespace = true
+					leadingWhitespaceToken = whitespaceCount
+				}
+				escaped = false
+				quoteCount = 0
+				whitespaceCount = 0
+				continue
+			}
 			tok.SetEnd(l.input.InputPosition, l.input.TextPosition)
 			tok.Literal.Start += uint32(leadingWhitespaceToken)
 			tok.Literal.End -= uint32(whitespaceCount)
@@ -397,11 +409,17 @@ func (l *Lexer) readSingleLineString(tok *token.Token) {
 	escaped := false
 
 	for {
+		atEnd := l.input.InputPosition >= l.input.Length
 		next := l.readRune()
 		switch next {
 		case runes.SPACE, runes.TAB:
 			escaped = false
 		case runes.EOF:
+			if !atEnd {
+				// a NUL byte in the input is not the end of the input
+				escaped = false
+				continue
+			}
 			tok.SetEnd(l.input.InputPosition, l.input.TextPosition)
 			return
 		case runes.QUOTE, runes.CARRIAGERETURN, runes.LINETERMINATOR:
